@@ -58,6 +58,9 @@ for nm, lo, hi in (('hex.small', 0, 15), ('hex.medium', 16, 1024), ('hex.large',
 CATALOG['zip.owned_ref'] = lambda f, s, n: scenarios.zip_mixed(f, s, n, which='owned_ref', name='zip.owned_ref')
 CATALOG['zip.ref_owned'] = lambda f, s, n: scenarios.zip_mixed(f, s, n, which='ref_owned', name='zip.ref_owned')
 
+CATALOG['iter.fold'] = lambda f, s, n: scenarios.iter_fold(f, s, n, which='fold', name='iter.fold')
+CATALOG['iter.rfold'] = lambda f, s, n: scenarios.iter_fold(f, s, n, which='rfold', name='iter.rfold')
+
 if __name__ == '__main__':
     fns = mirsym.parse_mir(open(sys.argv[1]).read())
     src, nmax = sys.argv[2], int(sys.argv[3])
